@@ -443,7 +443,7 @@ class FetchParsed(Stream):
         idx = 0
         for alts in masters:
             srcs = sources_for(alts, rich=not quick or len(alts) <= 3)
-            for stars in star_subsets(len(alts), rng, 8 if quick else 16):
+            for stars in star_subsets(len(alts), rng, 8 if quick else 10):
                 mw = master_words(alts, stars)
                 for sw in srcs:
                     if quick:
@@ -456,7 +456,7 @@ class FetchParsed(Stream):
                     for mu, o in combos:
                         yield [mw, sw, mu, o]
         # random: larger pools, odd names, random token soups
-        nrand = 6000 if quick else 80000
+        nrand = 6000 if quick else 50000
         toks = ["+", "*", "None", "Auto", "zz", "*zz", "ZZ", "++", "a+", "+b"]
         for i in range(nrand):
             n = rng.randint(2, 5)
